@@ -103,7 +103,7 @@ def lib_sources(tree):
     return out
 
 
-def build_flavour(flavour, exec_sources=("abtx.c",), extra_defs=(), quiet=True,
+def build_flavour(flavour, exec_sources=("abtx.c", "envmode.c"), extra_defs=(), quiet=True,
                   extra_edits=(), name=None):
     """Returns (path to executor binary, info dict).  Raises on build failure."""
     t0 = time.time()
@@ -172,6 +172,35 @@ def build_flavour(flavour, exec_sources=("abtx.c",), extra_defs=(), quiet=True,
     # make sure no unknown blocking primitive crept into libabt
     check_externals(objs)
     return exe, {"flavour": flavour, "build_s": round(time.time() - t0, 2), "tree": tree}
+
+
+def build_lib_objects(name, cc, cflags, edits=()):
+    """Compile only libabt (no harness) with the given compiler flags; returns
+    (list of object files, include dir)."""
+    tree = sync_tree(name, list(edits))
+    obj = os.path.join(CACHE, "obj-" + name)
+    shutil.rmtree(obj, ignore_errors=True)
+    os.makedirs(obj)
+    inc = os.path.join(tree, "src", "include")
+    base = [cc] + list(cflags) + ["-DHAVE_CONFIG_H", "-I" + inc, "-w"]
+    jobs, objs = [], []
+    for s in lib_sources(tree):
+        o = os.path.join(obj, s.replace("/", "_")[:-2] + ".o")
+        objs.append(o)
+        jobs.append(base + ["-c", os.path.join(tree, "src", s), "-o", o])
+    o = os.path.join(obj, "fctx.o")
+    objs.append(o)
+    jobs.append(["gcc", "-c", "-DHAVE_CONFIG_H", "-I" + inc,
+                 os.path.join(tree, "src", "arch", "fcontext",
+                              "fcontext_x86_64_sysv_elf_gas.S"), "-o", o])
+    errs = []
+    with ThreadPoolExecutor(max_workers=int(os.environ.get("VERIF_JOBS", "16"))) as ex:
+        for cmd, (rc, out) in ex.map(lambda c: (c, run(c)), jobs):
+            if rc != 0:
+                errs.append(" ".join(cmd) + "\n" + out)
+    if errs:
+        raise RuntimeError("compile failed:\n" + "\n".join(errs[:3]))
+    return objs, inc, obj
 
 
 ALLOWED_UNDEF = set("""
